@@ -35,8 +35,8 @@ Tree(i) ==
       \* an item that starts with a list of empty items carries nothing; the next item is still an item of the list
       [] i = 12 -> [k |-> "D", c |-> <<Lf("L"), T("OL", <<T("S", <<Lf("Raw")>>)>>), Lf("L")>>,
                     md |-> "p\n\n1. 1)\n\n1.     code3 line\nline\n"]
-      \* ... and what follows such a list inside the item is the content of an item without text
-      [] i = 13 -> [k |-> "D", c |-> <<T("BL", <<T("S", <<Lf("L")>>), T("S", <<>>)>>)>>,
+      \* ... and what follows such a list inside the item is the item
+      [] i = 13 -> [k |-> "D", c |-> <<T("BL", <<T("S", <<>>), T("S", <<>>)>>)>>,
                     md |-> "- -\n\n  tail\n- x\n"]
       \* an item that starts with a code block has an empty text of its own
       [] i = 11 -> [k |-> "D", c |-> <<T("S", <<T("BL", <<T("S", <<Lf("Raw"), Lf("L")>>), T("S", <<>>)>>)>>)>>,
